@@ -36,7 +36,7 @@ func main() {
 	out := newOut(*outp)
 	g(newR(*seed), *n, *tier, out)
 	// a second stream for the properties whose operations also run inside heap-level programs (heapext.go)
-	if xp, ok := xStreams[prop]; ok {
+	if xp, ok := xStreams[prop]; ok && !asyncStuck {
 		nx := *n / xp.div
 		if nx < xp.min {
 			nx = xp.min
